@@ -16,7 +16,7 @@ for d, i in info.items():
     cmd = f"cargo test --offline -p {pl.split('/')[1]} --test {os.path.basename(pl)[:-3]}"
     meta = {"property": i["property"], "origin": "independent sub-agent given only the property text and a scratch git worktree of /repo" + (" (second round: told which two ideas were already taken)" if i.get("round2") else ""),
             "breaks": i["what"], "needs_to_manifest": i["needs"], "demonstration": {"file": "demo.rs", "place_at": pl, "command": cmd},
-            "confirmed": "tools/verify_seed.sh in a scratch worktree at 693f5d0: demonstration passes on HEAD, fails with patch.diff applied; `cargo test --workspace --no-fail-fast --offline` with the patch: 228 passed, 0 failed",
+            "confirmed": "tools/verify_seed.sh in a scratch worktree at the then-current HEAD of /repo: demonstration passes on HEAD, fails with patch.diff applied; `cargo test --workspace --no-fail-fast --offline` with the patch: 228 passed, 0 failed",
             "checks_run": "bin/with_mutant <patch.diff> <ID..> (scratch copy of /repo's working tree + patch, same facts extraction and rules as `bin/check <ID> quick`)",
             "detected_before_strengthening": i["before"], "detected_by": i["by"], "rules": i["rules"], "note": i.get("note", "")}
     json.dump(meta, open(os.path.join(dst, "meta.json"), "w"), indent=1, ensure_ascii=False)
